@@ -44,6 +44,11 @@ def gen_case(rng, i):
                   "fundamentalWeight": {"expon": [1.0]}, "chartWeight": {"expon": [0.2]}, "noiseWeight": {"expon": [1.0]},
                   "noiseScale": 0.001, "timeWindowSize": [10, 20], "orderMargin": [0.0, 0.1], "marginType": "normal"}
     cfg["simulation"]["agents"] += ["MMA", "ARB", "MSF"]
+    # randomised endowments: every draw an agent makes during setup is part of the outcome
+    for nm in ("NA", "HA", "FCN", "MSF"):
+        if nm in cfg:
+            cfg[nm]["assetVolume"] = rng.choice([[40, 60], {"uniform": [10, 90]}, {"normal": [50, 5]}])
+            cfg[nm]["cashAmount"] = rng.choice([{"expon": [10000]}, [9000, 11000]])
     ses = cfg["simulation"]["sessions"]
     for s in ses:
         s["withOrderPlacement"] = True
